@@ -9,7 +9,7 @@ import RlModel.Model.OrderSem
 namespace RlModel.Gen
 
 -- List(keys) => keys.clone()   (a key list denotes itself)
-def orderArms : List String := ["Scan", "Order", "TopN", "Proj", "Filter", "Window", "Limit", "MergeJoin", "HashJoin", "SortAgg"]
+def orderArms : List String := ["Scan", "Order", "TopN", "Proj", "Filter", "Window", "Limit", "MergeJoin", "SortAgg"]
 
 /-- the first primary-key column of the scan list, if the engine's scans are key-ordered -/
 def claim_Scan (sortedByPk : Bool) (primary cols : List Nat) : List OrdKey :=
@@ -36,9 +36,6 @@ def claim_MergeJoin (t : JT) (lks rks xl xr : List OrdKey) : List OrdKey :=
     | .rightOuter => xr
     | .leftOuter => xl
     | _ => []
-
-def claim_HashJoin (t : JT) (lks rks xl xr : List OrdKey) : List OrdKey :=
-  xr
 
 def claim_SortAgg (keys xc : List OrdKey) : List OrdKey := xc
 
